@@ -95,7 +95,7 @@ def step (st : St) (ws : List String) : St × List String :=
     (st', [resLine r])
   | ["get", s, k] => (st, [s!"g {optS ((state s).get (key k))}"])
   | ["iter", s] =>
-    let items := (state s).iter.map (fun kv => s!"{kidOf st kv.1}:{kv.2}")
+    let items := (Trie.iterStack (Trie.size (state s).root) [(state s).root]).map (fun kv => s!"{kidOf st kv.1}:{kv.2}")
     (st, [" ".intercalate ("it" :: items)])
   | ["eq", s, t] => (st, [toString (decide (state s = state t))])
   | ["shape", s] => (st, [s!"sh {shapeStr st (state s).root}"])
